@@ -46,8 +46,8 @@ class Check(PropertyCheck):
                     "tclk": (WELL_KNOWN if rng.random() < 0.8 else rnd_bytes(rng, 16)).hex(), "tclk_fc": rng.randrange(1 << 32),
                     "tc_known": rng.random() < 0.7, "tc_addr": rnd_bytes(rng, 8).hex(),
                     "hashed": rnd_bytes(rng, 16).hex() if rng.random() < 0.6 else None,
-                    "keys": [[bytes([0xA0, i, k, 1, 2, 3, 4, 5]).hex(), rnd_bytes(rng, 16).hex()] for k in range(nkeys)],
-                    "children": [[bytes([0xC0, i, k, 9, 9, 9, 9, 9]).hex(), (0x3000 + k) if rng.random() < 0.8 else None]
+                    "keys": [[bytes([0xA0, i & 0xFF, k, 1 + (i >> 8), 2, 3, 4, 5]).hex(), rnd_bytes(rng, 16).hex()] for k in range(nkeys)],
+                    "children": [[bytes([0xC0, i & 0xFF, k, 9 + (i >> 8), 9, 9, 9, 9]).hex(), (0x3000 + k) if rng.random() < 0.8 else None]
                                  for k in range(rng.choice([0, 0, 1, 2, 3]))],
                 })
         return cases
